@@ -77,6 +77,9 @@ func (c *Ctx) CorrParseReqs(reqs []string, space string) []string {
 	real := c.Worker.Map(reqs)
 	for i := range reqs {
 		c.Ev.Traces++
+		if c.JudgeParse {
+			c.judgeParse(reqs[i], real[i])
+		}
 		if real[i] != model[i] || obsClass(real[i]) == "other" {
 			f := strings.Fields(reqs[i])
 			in := ""
